@@ -135,10 +135,13 @@ def eval_ext(toks, state):
         import io, contextlib
         how, seq = toks[1], toks[2]
         with contextlib.redirect_stdout(io.StringIO()):
+            par_backend = None
             if how == "swap":
-                child, rest = SP(SeqObj=Sequence(seq).swapRes(int(toks[3]), int(toks[4]))), toks[5:]
+                par_backend = Sequence(seq)
+                child, rest = SP(SeqObj=par_backend.swapRes(int(toks[3]), int(toks[4]))), toks[5:]
             elif how == "swapcharge":
-                child, rest = SP(SeqObj=Sequence(seq).swapRandChargeRes()), toks[3:]
+                par_backend = Sequence(seq)
+                child, rest = SP(SeqObj=par_backend.swapRandChargeRes()), toks[3:]
             elif how in ("deepcopy", "pickle", "copybackend", "copy"):
                 # a duplicate of an object on which state was built up first: copy<how> SEQ <pre-call csv|-> query...
                 import copy as _copy, pickle as _pickle
@@ -173,6 +176,7 @@ def eval_ext(toks, state):
                 child, rest = SP(SeqObj=Sequence(seq).full_shuffle()), toks[3:]
             elif how in ("blockswap", "cluster"):
                 par = Sequence(seq)
+                par_backend = par
                 if toks[3] == "warm":
                     par.deltaMax()
                 try:
@@ -202,6 +206,12 @@ def eval_ext(toks, state):
             if not _same_answer(ans, fresh):
                 return ("exc", "Inconsistent", "the object obtained by %s answers %s -> %s, a fresh object holding the same sequence %s answers %s" % (
                     how, " ".join(rest), str(ans)[:120], child.get_sequence(), str(fresh)[:120]))
+            # ... and the object the move was called on still answers like a fresh object holding ITS sequence
+            if par_backend is not None and par_backend is not child.SeqObj:
+                pa = real.query(SP(SeqObj=par_backend), rest[0], rest[1:])
+                pf = real.query(SP(seq), rest[0], rest[1:])
+                if not _same_answer(pa, pf):
+                    return ("exc", "Inconsistent", "after %s the PARENT %s answers %s -> %s, a fresh object %s" % (how, seq, " ".join(rest), str(pa)[:120], str(pf)[:120]))
         return ("childq", child.get_sequence(), " ".join(rest), ans)
     if op == "parse2":
         # one parser object reused for every parse2 line of the block (parsing must not depend on earlier files)
@@ -255,7 +265,10 @@ def eval_ext(toks, state):
         state["palmode"] = state.get("palmode", 0) + 1
         if state["palmode"] % 3 == 0:
             d = dict((k, ColourName(v) if isinstance(v, str) else v) for k, v in d.items())     # values of a str subclass with its own __str__
-        objs[toks[1]].set_HTMLColorResiduePalette(d)
+        if "@backend" in real.FLAGS:
+            objs[toks[1]].SeqObj.set_HTMLColorResiduePalette(d)      # the same update made on the backend object the facade wraps
+        else:
+            objs[toks[1]].set_HTMLColorResiduePalette(d)
         return ("none",)
     if op == "plot":
         from . import real_plots
